@@ -108,7 +108,13 @@ pub enum Op {
     Link { pairs: Vec<(Sel, Sel)>, ty: u8 },
     SetProp { rows: Vec<(Sel, Val)>, q: bool },
     RemoveProp { targets: Vec<Sel>, q: bool },
-    AddLabel { targets: Vec<Sel>, label: u8 },
+    AddLabel {
+        targets: Vec<Sel>,
+        label: u8,
+        /// `REMOVE n:L` instead of `SET n:L`
+        #[serde(default)]
+        remove: bool,
+    },
     Delete { targets: Vec<Sel>, detach: bool },
     DeleteRel { which: Vec<u16> },
     Merge { existing: Vec<Sel>, fresh: u8, fresh_label: u8, on_create: bool, on_match: bool, val: i64 },
@@ -216,7 +222,7 @@ pub fn op(mix: &Mix) -> BoxedStrategy<Op> {
     );
     add(
         mix.add_label,
-        (prop::collection::vec(sel(r), 1..=rows.min(3)), 0u8..3).prop_map(|(targets, label)| Op::AddLabel { targets, label }).boxed(),
+        (prop::collection::vec(sel(r), 1..=rows.min(3)), 0u8..3, prop::bool::weighted(0.35)).prop_map(|(targets, label, remove)| Op::AddLabel { targets, label, remove }).boxed(),
     );
     add(
         mix.delete,
@@ -263,7 +269,9 @@ pub enum RS {
     /// `then_delete`: `... SET n.<key> = .. DELETE n` (the SET is applied before the DELETE is refused)
     SetProp { key: String, rows: Vec<(i64, PV)>, px: Option<Px>, then_delete: bool },
     RemoveProp { key: String, ks: Vec<i64> },
-    AddLabel { label: String, ks: Vec<i64> },
+    AddLabel { label: String, ks: Vec<i64>, remove: bool },
+    /// `MATCH (n {k}) <REMOVE n.key | SET n:L | REMOVE n:L> DELETE n`: the mutation is applied before the DELETE is refused
+    MutThenDelete { mutation: Mut, ks: Vec<i64> },
     Delete { ks: Vec<i64>, detach: bool },
     DeleteRel { rows: Vec<(i64, String, i64)> },
     Merge { label: String, rows: Vec<(i64, PV)>, on_create: bool, on_match: bool, px: Option<Px> },
@@ -271,6 +279,13 @@ pub enum RS {
     LinkThenDelete { kx: i64, lb: String, kb: i64, ty: String, detach: bool },
     /// text that the parser refuses
     Syntax,
+}
+
+#[derive(Debug, Clone, PartialEq)]
+pub enum Mut {
+    RemoveProp(String),
+    AddLabel(String),
+    RemoveLabel(String),
 }
 
 /// The statement is specified to fail (and then to have no effect).
@@ -314,7 +329,7 @@ impl RS {
             RS::CreateNodes { rows, .. } | RS::SetProp { rows, .. } | RS::Merge { rows, .. } => rows.len(),
             RS::CreatePairs { rows, .. } | RS::Link { rows, .. } => rows.len(),
             RS::DeleteRel { rows } => rows.len(),
-            RS::RemoveProp { ks, .. } | RS::AddLabel { ks, .. } | RS::Delete { ks, .. } => ks.len(),
+            RS::RemoveProp { ks, .. } | RS::AddLabel { ks, .. } | RS::Delete { ks, .. } | RS::MutThenDelete { ks, .. } => ks.len(),
             _ => 1,
         }
     }
@@ -324,7 +339,7 @@ impl RS {
         match self {
             RS::Link { rows, .. } => rows.iter().flat_map(|(a, b)| [*a, *b]).collect(),
             RS::SetProp { rows, .. } | RS::Merge { rows, .. } => rows.iter().map(|r| r.0).collect(),
-            RS::RemoveProp { ks, .. } | RS::AddLabel { ks, .. } | RS::Delete { ks, .. } => ks.clone(),
+            RS::RemoveProp { ks, .. } | RS::AddLabel { ks, .. } | RS::Delete { ks, .. } | RS::MutThenDelete { ks, .. } => ks.clone(),
             RS::DeleteRel { rows } => rows.iter().flat_map(|(a, _, b)| [*a, *b]).collect(),
             RS::LinkThenDelete { kx, .. } => vec![*kx],
             _ => vec![],
@@ -402,10 +417,45 @@ impl RS {
                     }
                 }
             }
-            RS::AddLabel { label, ks } => {
+            RS::AddLabel { label, ks, remove } => {
                 for k in ks {
                     for n in nodes_with_k(m, *k) {
-                        m.nodes.get_mut(&n).unwrap().labels.insert(label.clone());
+                        let labels = &mut m.nodes.get_mut(&n).unwrap().labels;
+                        if *remove {
+                            labels.remove(label);
+                        } else {
+                            labels.insert(label.clone());
+                        }
+                    }
+                }
+            }
+            RS::MutThenDelete { mutation, ks } => {
+                let mut targets = Vec::new();
+                for k in ks {
+                    for n in nodes_with_k(m, *k) {
+                        let node = m.nodes.get_mut(&n).unwrap();
+                        match mutation {
+                            Mut::RemoveProp(key) => {
+                                node.props.remove(key);
+                            }
+                            Mut::AddLabel(l) => {
+                                node.labels.insert(l.clone());
+                            }
+                            Mut::RemoveLabel(l) => {
+                                node.labels.remove(l);
+                            }
+                        }
+                        targets.push(n);
+                    }
+                }
+                for n in &targets {
+                    if !m.incident_keys(*n).is_empty() {
+                        return Err(MustFail("non-DETACH delete of a connected node"));
+                    }
+                }
+                for n in targets {
+                    if m.nodes.contains_key(&n) {
+                        m.delete_node(n);
                     }
                 }
             }
@@ -560,9 +610,18 @@ impl RS {
                 let list: Vec<String> = ks.iter().map(|k| k.to_string()).collect();
                 format!("UNWIND [{}] AS x MATCH (n {{k: x}}) REMOVE n.{key}", list.join(", "))
             }
-            RS::AddLabel { label, ks } => {
+            RS::AddLabel { label, ks, remove } => {
                 let list: Vec<String> = ks.iter().map(|k| k.to_string()).collect();
-                format!("UNWIND [{}] AS x MATCH (n {{k: x}}) SET n:{label}", list.join(", "))
+                format!("UNWIND [{}] AS x MATCH (n {{k: x}}) {} n:{label}", list.join(", "), if *remove { "REMOVE" } else { "SET" })
+            }
+            RS::MutThenDelete { mutation, ks } => {
+                let list: Vec<String> = ks.iter().map(|k| k.to_string()).collect();
+                let mutation = match mutation {
+                    Mut::RemoveProp(key) => format!("REMOVE n.{key}"),
+                    Mut::AddLabel(l) => format!("SET n:{l}"),
+                    Mut::RemoveLabel(l) => format!("REMOVE n:{l}"),
+                };
+                format!("UNWIND [{}] AS x MATCH (n {{k: x}}) {mutation} DELETE n", list.join(", "))
             }
             RS::Delete { ks, detach } => {
                 let list: Vec<String> = ks.iter().map(|k| k.to_string()).collect();
@@ -661,12 +720,12 @@ pub fn resolve(op: &Op, m: &Model, pool: &Pool<'_>, next_k: &mut i64) -> Option<
             }
             RS::RemoveProp { key: if *q { "q" } else { "p" }.into(), ks }
         }
-        Op::AddLabel { targets, label: l } => {
+        Op::AddLabel { targets, label: l, remove } => {
             let ks: Vec<i64> = targets.iter().filter_map(|s| Some(pick(m, pool, *s)?.1)).collect();
             if ks.is_empty() {
                 return None;
             }
-            RS::AddLabel { label: label(*l), ks }
+            RS::AddLabel { label: label(*l), ks, remove: *remove }
         }
         Op::Delete { targets, detach } => {
             let mut ks: Vec<i64> = targets.iter().filter_map(|s| Some(pick(m, pool, *s)?.1)).collect();
@@ -924,7 +983,13 @@ pub enum Bad {
     /// multi-row statement whose row `at` raises
     Rows { base: BadBase, n: u8, at: u16, kind: PoisonKind, label: u8 },
     /// `UNWIND .. MATCH (n {k}) SET n.q = .. DELETE n` with one connected node among the rows
-    SetThenDelete { n: u8, at: u16 },
+    SetThenDelete {
+        n: u8,
+        at: u16,
+        /// 0: `SET n.q = ..`, 1: `REMOVE n.p`, 2: `SET n:L`, 3: `REMOVE n:L` (a label the connected node has)
+        #[serde(default)]
+        what: u8,
+    },
     /// non-DETACH delete whose targets include a connected node
     RefusedDelete { n: u8, at: u16 },
     CreateThenDelete { la: u8, lb: u8, ty: u8, both: bool, b: bool },
@@ -950,7 +1015,7 @@ pub fn bad() -> impl Strategy<Value = Bad> + Clone {
     prop_oneof![
         12 => (prop::sample::select(vec![BadBase::CreateNodes, BadBase::SetProp, BadBase::Merge]), 1u8..=6, any::<u16>(), poison_kind(), 0u8..3)
             .prop_map(|(base, n, at, kind, label)| Bad::Rows { base, n, at, kind, label }),
-        3 => (1u8..=4, any::<u16>()).prop_map(|(n, at)| Bad::SetThenDelete { n, at }),
+        5 => (1u8..=4, any::<u16>(), 0u8..4).prop_map(|(n, at, what)| Bad::SetThenDelete { n, at, what }),
         2 => (1u8..=3, any::<u16>()).prop_map(|(n, at)| Bad::RefusedDelete { n, at }),
         2 => (0u8..3, 0u8..3, 0u8..3, any::<bool>(), any::<bool>()).prop_map(|(la, lb, ty, both, b)| Bad::CreateThenDelete { la, lb, ty, both, b }),
         2 => (any::<u16>(), 0u8..3, 0u8..3).prop_map(|(target, lb, ty)| Bad::LinkThenDelete { target, lb, ty }),
@@ -1022,7 +1087,7 @@ pub fn resolve_bad(b: &Bad, m: &Model, only: &BTreeSet<Iid>, next_k: &mut i64) -
             };
             (rs, Some(at))
         }
-        Bad::SetThenDelete { n, at } => {
+        Bad::SetThenDelete { n, at, what } => {
             let Some(&c) = connected.first() else {
                 return (RS::Syntax, None);
             };
@@ -1038,7 +1103,16 @@ pub fn resolve_bad(b: &Bad, m: &Model, only: &BTreeSet<Iid>, next_k: &mut i64) -
                     fi += 1;
                 }
             }
-            (RS::SetProp { key: "q".into(), rows, px: None, then_delete: true }, Some(at))
+            let mutation = match what {
+                1 => Some(Mut::RemoveProp("p".into())),
+                2 => Some(Mut::AddLabel(label((at % 3) as u8))),
+                3 => Some(Mut::RemoveLabel(m.nodes[&c].labels.iter().next().cloned().unwrap_or_else(|| label(0)))),
+                _ => None,
+            };
+            match mutation {
+                Some(mutation) => (RS::MutThenDelete { mutation, ks: rows.iter().map(|r| r.0).collect() }, Some(at)),
+                None => (RS::SetProp { key: "q".into(), rows, px: None, then_delete: true }, Some(at)),
+            }
         }
         Bad::RefusedDelete { n, at } => {
             let Some(&c) = connected.last() else {
